@@ -96,6 +96,9 @@ def run(res: C.Result):
     C.prove(res, extra_tb=["Coq-Interval `interval with (i_prec 80)` evaluates the model in each correspondence case"])
     ncases = 160 if res.tier == "quick" else 3000
     cases = [gen_case(rng, k) for k in range(ncases)]
+    for i, c in enumerate(cases):
+        if random.Random(res.seed ^ 0x18C000 ^ i).random() < 0.35:
+            c["custom_keys"] = True       # the calculator publishes its committee data under other names; the simulation is told so through its keyword attributes
     outs = C.run_impl_parallel("c18.py", [{"cases": cases[i::16]} for i in range(16)])
     results = [None] * ncases
     for j, o in enumerate(outs):
